@@ -10,6 +10,7 @@ package main
 //	ad <adapter> <bound ints>: <ints>           one adapter call
 //	tr <kd> <ke> <mode>: <ints>                 Trampoline with the step family
 //	cu <G|I> <n>: c:<ints> ; d ; r ; i ; …      CurryDef script (Call / MarkDone / Result / IsDone)
+//	cw <G|I> <n>: b:<cap>:<ints> ; A ; B:<ints> ; w:<i>:<v> ; v ; rA ; …   two CurryDefs, ONE caller buffer spread into Calls
 //	cs <g> <m> <a> <n> <y>                      concurrent Call stress, checked by a monitor
 //	m <probe>: pat ; pat ; …   e <probe>: …     MatchFor / Either
 //	nd <ct> <objs>   tm <ct> <objs>   mc <ct> <ct> <objs>
@@ -586,6 +587,113 @@ func c20RunCurry(variant string, n int, ops []string) string {
 				outs = append(outs, strconv.Itoa(result()))
 			case op == "i":
 				outs = append(outs, strconv.FormatBool(isDone()))
+			default:
+				outs = append(outs, "bad-op")
+			}
+		}()
+	}
+	return strings.Join(outs, " | ")
+}
+
+// c20RunCW: two CurryDefs A and B and ONE caller-owned buffer xs with spare capacity.  Ops: b:<cap>:<ints>
+// (xs = append(make([]int,0,cap), ints...)), A / B (Call(xs...): the buffer itself is spread), A:<ints> / B:<ints>
+// (Call with fresh arguments), w:<i>:<v> (the caller overwrites xs[i]), v (print xs[:cap]: nobody may have written
+// into the caller's buffer), rA / rB (Result).  Every Call prints the argument list fn saw.
+func c20RunCW(variant string, n int, ops []string) string {
+	type cur struct {
+		call   func(a []int) // spreads exactly the slice it is given
+		result func() int
+	}
+	var seen []int
+	invoked := 0
+	mk := func() cur {
+		if variant == "I" {
+			c := fpgo.CurryNew(func(c *fpgo.CurryDef[interface{}, interface{}], args ...interface{}) interface{} {
+				in := make([]int, len(args))
+				for i, a := range args {
+					in[i] = a.(int)
+				}
+				seen, invoked = in, invoked+1
+				if n >= 0 && len(args) >= n {
+					c.MarkDone()
+				}
+				return c20Hash(in)
+			})
+			var ys []interface{} // the caller's boxed buffer is rebuilt per call: aliasing is exercised by the G variant
+			return cur{call: func(a []int) {
+				ys = make([]interface{}, len(a), len(a)+4)
+				for i, v := range a {
+					ys[i] = v
+				}
+				c.Call(ys...)
+			}, result: func() int {
+				if r := c.Result(); r != nil {
+					return r.(int)
+				}
+				return 0
+			}}
+		}
+		c := fpgo.CurryNewGenerics(func(c *fpgo.CurryDef[int, int], args ...int) int {
+			seen, invoked = append([]int{}, args...), invoked+1
+			if n >= 0 && len(args) >= n {
+				c.MarkDone()
+			}
+			return c20Hash(args)
+		})
+		return cur{call: func(a []int) { c.Call(a...) }, result: c.Result}
+	}
+	a, b := mk(), mk()
+	xs := []int{}
+	capXs := 0
+	doCall := func(c cur, args []int) string {
+		before := invoked
+		c.call(args)
+		if invoked == before {
+			return "skip"
+		}
+		o := "f " + c20ShowInts(seen)
+		if invoked > before+1 {
+			o += " x" + strconv.Itoa(invoked-before)
+		}
+		return o
+	}
+	outs := make([]string, 0, len(ops))
+	for _, op := range ops {
+		func() {
+			defer func() {
+				if r := recover(); r != nil {
+					outs = append(outs, "panic")
+				}
+			}()
+			parts := strings.Split(op, ":")
+			switch {
+			case parts[0] == "b" && len(parts) == 3:
+				l := c20ParseInts(parts[2])
+				capXs = c20Atoi(parts[1], 0)
+				if capXs < len(l) {
+					capXs = len(l)
+				}
+				xs = append(make([]int, 0, capXs), l...)
+				outs = append(outs, "nil")
+			case op == "A":
+				outs = append(outs, doCall(a, xs))
+			case op == "B":
+				outs = append(outs, doCall(b, xs))
+			case parts[0] == "A" && len(parts) == 2:
+				outs = append(outs, doCall(a, c20ParseInts(parts[1])))
+			case parts[0] == "B" && len(parts) == 2:
+				outs = append(outs, doCall(b, c20ParseInts(parts[1])))
+			case parts[0] == "w" && len(parts) == 3:
+				if i := c20Atoi(parts[1], 0); i >= 0 && i < len(xs) {
+					xs[i] = c20Atoi(parts[2], 0)
+				}
+				outs = append(outs, "nil")
+			case op == "v":
+				outs = append(outs, "buf "+c20ShowInts(xs[:capXs]))
+			case op == "rA":
+				outs = append(outs, strconv.Itoa(a.result()))
+			case op == "rB":
+				outs = append(outs, strconv.Itoa(b.result()))
 			default:
 				outs = append(outs, "bad-op")
 			}
@@ -1190,6 +1298,8 @@ func c20Run(line string) string {
 		return c20RunTrampoline(c20Atoi(head[1], 1), c20Atoi(head[2], -1), c20Atoi(head[3], 0), c20ParseInts(body))
 	case head[0] == "cu" && len(head) == 3:
 		return c20RunCurry(head[1], c20Atoi(head[2], -1), c20Toks(body))
+	case head[0] == "cw" && len(head) == 3:
+		return c20RunCW(head[1], c20Atoi(head[2], -1), c20Toks(body))
 	case head[0] == "cs" && len(head) == 6:
 		return c20RunStress(c20Atoi(head[1], 1), c20Atoi(head[2], 1), c20Atoi(head[3], 1), c20Atoi(head[4], -1), c20Atoi(head[5], 0))
 	case (head[0] == "m" || head[0] == "e") && len(head) == 2:
